@@ -19,7 +19,12 @@ PROPS = {
         "design_ref": "§6 C18",
         "technique": "Lean 4 proof: Rdata::validate ↔ per-RFC RDATA grammar for every (class,type); Rdata::read never panics, is sound w.r.t. the decompression spec and round-trips valid RDATA; dispatch tables extracted from src/rr/rdata/mod.rs; differential correspondence incl. every (cursor, rdlength) on short messages",
         "assumptions": [
-            "usize is 64 bits; Rdata::read is called with cursor + rdlength ≤ usize::MAX (true for every cursor that is an offset into a message); the overflow panic outside that range is modelled and compared, not constrained by the spec",
+            "usize is 64 bits; Rdata::read is called with cursor + rdlength ≤ usize::MAX (true for every cursor that is an offset into a message); the overflow panic outside that range is modelled (theorem C18_read_overflow_panics) and compared with the real code, not constrained by the spec",
+            "the compressed write/read round trip is proved for reader + Rdata::components given the writer contract `Written` (each component is in the message, names in any encoding that decodes to them); that the writer model establishes it is C12/C13",
+        ],
+        "evidence_notes": [
+            "dispatch arms of Rdata::{equals,validate,read,components} are extracted into lean/QV/Generated/RdataDispatch.lean on every run; validate_eq/read_eq/equals_eq/components_eq prove them equal to the RFC table fmtOf for every (class,type)",
+            "interpretation: names in NS/MD/MF/CNAME/MB/MG/MR/PTR/SOA/MINFO/MX (any class), SRV (IN) and A (CH) are decompressed on read (RFC 3597 §4); A/WKS/AAAA/SRV outside class IN and A outside IN/CH are opaque; OPT may hold zero options; TXT needs at least one character-string",
         ],
     },
     "C19": {
@@ -28,6 +33,10 @@ PROPS = {
         "technique": "Lean 4 proof: Rdata::equals = spec equality (field-wise, names case-insensitive, octet-wise fallback) for every (class,type) and all inputs, hence an equivalence; RdataSetOwned::from_iter/iter = first-of-each-class; dispatch tables extracted; differential correspondence on pairs, triples and sets",
         "assumptions": [
             "RdataSet length prefixes use native endianness (modelled little-endian; encode and decode agree, so unobservable)",
+            "members of an RdataSet are at most 65535 octets (invariant of the Rdata type; `len as u16` would truncate otherwise)",
+        ],
+        "evidence_notes": [
+            "interpretation: 'pre-RFC 3597 name-bearing types' = the formats with a field layout in QV.Spec.layoutOf (NS-like, SOA, MINFO, MX any class; SRV in IN; A in CH); 'well formed' = RdataSpec; names compare equal iff their wire forms agree after ASCII case folding (RFC 4343)",
         ],
     },
 }
